@@ -174,6 +174,20 @@ void j_sqrt_algos(Ctx & c, int64_t x, int64_t, int64_t)
   }
 
 std::mutex g_points_mutex;
+// arguments every constexpr-claimed entry point is constant-evaluated on, whatever the random sample contains
+std::vector<int64_t> cardinals(Kind k, bool second = false)
+  {
+  if(k == K_NONE) return { 0 };
+  if(k == K_FIX)
+    {
+    if(second) return { 0, ONE, -ONE, 1, RAW_MAX };
+    return { 0, 1, -1, ONE, -ONE, ONE / 2, PHI2, RAW_MAX, RAW_LOWEST, RAW_NAN, RAW_NNAN };
+    }
+  const auto & B = boundary(k);
+  std::vector<int64_t> v{ B.front(), B.back(), B[B.size() / 2] };
+  for(int64_t x : B) if((x == 0 || x == 1 || x == -1 || x == 63 || x == 360) && std::find(v.begin(), v.end(), x) == v.end()) v.push_back(x);
+  return v;
+  }
 void drive_all(Ctx & c, const Check & K, bool differential)
   {
   FILE * pf = nullptr;
@@ -199,6 +213,20 @@ void drive_all(Ctx & c, const Check & K, bool differential)
         if((e.dom.a == K_FIX && !model_finite(a)) || e.dom.b == K_SHIFT) c.nontrivial(hash3(7000 + ei, a, b));
         }
     Rng r; r.seed(c.seed, strhash(e.name.c_str()) ^ (uint64_t)c.shard * 7919);
+    auto emit_point = [&](int64_t pa, int64_t pb)
+      {
+      CallRes v0 = c.call(e.fn.f[0], pa, pb);
+      int eci = e.sqrt_dependent ? abacus_ci : 0;
+      if(eci < 0 || v0.sig) return false;
+      CallRes ve = c.call(e.fn.f[(size_t)eci], pa, pb);
+      if(ve.sig) return false;
+      fprintf(pf, "%s %" PRId64 " %" PRId64 " %" PRId64 " %d\n", e.name.c_str(), pa, pb, canon(e, ve.v), e.double_result ? 1 : 0);
+      return true;
+      };
+    if(pf && e.constexpr_claimed && e.dom.a != K_NONE)
+      { // cardinal points: every entry point is forced through the constant evaluators on 0, +-1 ulp, +-1, the limits and the NaN sentinels
+      for(int64_t pa : cardinals(e.dom.a)) for(int64_t pb : cardinals(e.dom.b, true)) if(emit_point(pa, pb)) c.stratum("constant-evaluator-cardinal-point");
+      }
     uint64_t m = c.share(nrandom);
     for(uint64_t i = 0; i < m; ++i)
       {
@@ -212,13 +240,7 @@ void drive_all(Ctx & c, const Check & K, bool differential)
         // sample points for the constant-evaluator arm: alternately the random tuple and a boundary tuple
         int64_t pa = a, pb = b;
         if(npoints & 1) { pa = A[r.below(A.size())]; pb = B[(npoints / 2) % B.size()]; } // second operand walks its boundary list from the front
-        CallRes v0 = c.call(e.fn.f[0], pa, pb);
-        int eci = e.sqrt_dependent ? abacus_ci : 0;
-        if(eci >= 0 && !v0.sig)
-          {
-          CallRes ve = c.call(e.fn.f[(size_t)eci], pa, pb);
-          if(!ve.sig) { fprintf(pf, "%s %" PRId64 " %" PRId64 " %" PRId64 " %d\n", e.name.c_str(), pa, pb, canon(e, ve.v), e.double_result ? 1 : 0); ++npoints; }
-          }
+        if(emit_point(pa, pb)) ++npoints;
         }
       }
     }
@@ -254,7 +276,7 @@ Property P_C08 = { "C08", diff_init, c08_run,
   { { "diff", j_diff, "entry point c called with (a,b): results bit-identical in all configurations that select the same sqrt algorithm" },
     { "sqrt_algos", j_sqrt_algos, "|sqrt_abacus(x) - sqrt_std_math(x)| <= 1 ulp for x in [0,2^47); a = raw" },
     { "reassign", j_reassign, "stateful call-site shape c: an operation applied twice in one function with one operand object modified (xor 0x5a5a) in between; the second result must equal the plain entry point on the modified operands, at every optimisation level" } },
-  { "domain-fixed,fixed", "domain-fixed,none", "domain-fixed,shift-count", "domain-int32-angle,none", "domain-float-bits,none", "domain-double-bits,none", "domain-fixed,uint64", "domain-fixed,double-bits", "sqrt-algorithms-compared", "stateful-shape" },
+  { "domain-fixed,fixed", "domain-fixed,none", "domain-fixed,shift-count", "domain-int32-angle,none", "domain-float-bits,none", "domain-double-bits,none", "domain-fixed,uint64", "domain-fixed,double-bits", "sqrt-algorithms-compared", "stateful-shape", "constant-evaluator-cardinal-point" },
   "NaN-sentinel fixed arguments and shift counts from the boundary product, every 16th random tuple, sqrt arguments >= 2^46 raw or < 16; distinct by (entry,a,b)", {}, {} };
 Registrar R_C08(&P_C08);
 }
